@@ -60,6 +60,29 @@ def _callee_contract(fname, op):
     return Callee(fname, ["a", "b", "overflow"], cells=("overflow",), ensures=ens)
 
 
+# exact = a * 2^b; for b < 0 (Python: ValueError) or a < 0 "not representable" is the demanded answer
+def lshift_exact(e):
+    return e.a * S.pow2(If(And(e.b >= 0, e.b <= 64), e.b, 64))
+
+
+LSHIFT_ENS = [
+    ("never-misses: b<0, b>=width or a*2^b not representable => flag set",
+     lambda e: Implies(Or(e.b < 0, e.b >= e.T.bits, Not(_fits(e, lshift_exact(e)))), e.overflow_out != 0)),
+    ("exact-if-clear: flag clear => result == a*2^b",
+     lambda e: Implies(e.overflow_out == 0, e.result == lshift_exact(e))),
+    ("or-ed: a set flag stays set", lambda e: Implies(e.overflow != 0, e.overflow_out != 0)),
+]
+LSHIFT_MEASURED = [("no-spurious-flag", lambda e: Implies(And(e.overflow == 0, e.overflow_out != 0),
+                                                           Or(e.b < 0, e.b >= e.T.bits, Not(_fits(e, lshift_exact(e))))))]
+
+
+def callee(fname, op):
+    """contract of a checking helper for use at call sites (l3_overflow.py); op in add/sub/mul/lshift"""
+    if op == "lshift":
+        return Callee(fname, ["a", "b", "overflow"], cells=("overflow",), ensures=LSHIFT_ENS)
+    return _callee_contract(fname, op)
+
+
 def _binop_tu(tname, binop):
     def tu():
         cextract.ensure_repo_on_path()
@@ -152,18 +175,7 @@ def units(tier):
                          "config": "builtin", "callees_by_contract": sorted(callees)}))
     ltypes = LSHIFT_TYPES_QUICK if tier == "quick" else LSHIFT_TYPES_ALL
     for tname in ltypes:
-        # exact = a * 2^b; for b < 0 (Python: ValueError) or a < 0 "not representable" is the demanded answer
-        def exact(e):
-            return e.a * S.pow2(If(And(e.b >= 0, e.b <= 64), e.b, 64))
-        ens = [
-            ("never-misses: b<0, b>=width or a*2^b not representable => flag set",
-             lambda e: Implies(Or(e.b < 0, e.b >= e.T.bits, Not(_fits(e, exact(e)))), e.overflow_out != 0)),
-            ("exact-if-clear: flag clear => result == a*2^b",
-             lambda e: Implies(e.overflow_out == 0, e.result == exact(e))),
-            ("or-ed: a set flag stays set", lambda e: Implies(e.overflow != 0, e.overflow_out != 0)),
-        ]
-        meas = [("no-spurious-flag", lambda e: Implies(And(e.overflow == 0, e.overflow_out != 0),
-                                                        Or(e.b < 0, e.b >= e.T.bits, Not(_fits(e, exact(e))))))]
+        ens, meas = LSHIFT_ENS, LSHIFT_MEASURED
         us.append(CUnit(
             uid="Overflow.LeftShift[%s]" % tname, props=props,
             fname="__Pyx_lshift_%s_checking_overflow" % _spec_name(tname),
